@@ -3,13 +3,7 @@
 // C15: the text form of a hash is a bijection; anything else is rejected.
 include!(concat!(env!("VERIF_REPO_DIR"), "/src/main.rs"));
 
-mod vlib
-{
-    #[path = "../../../harness/src/verif/sha256.rs"]
-    pub mod sha256;
-    #[path = "../../../harness/src/verif/b62.rs"]
-    pub mod b62;
-}
+mod vlib;
 
 use libfuzzer_sys::fuzz_target;
 
